@@ -139,6 +139,20 @@ func (c18) Generate(r *sim.Rand, tier string) *sim.Scenario {
 	if r.Bool(0.5) {
 		sc.Cfg["reuseinit"] = 1
 	}
+	if r.Bool(0.01) {
+		// a long-lived initializer / constructor: a few thousand small calls with
+		// one configuration before the ordinary workload (state that only matters
+		// after many calls: counters, periodic re-derivation of the stream, ...)
+		f := fs[0]
+		for k, n := 0, r.Range(1200, 3000); k < n; k++ {
+			st := sim.Step{C: 0, Op: "draw", Out: -1, Tag: f.kind, F: cpF(f.f), B: f.nilc, I: []int{r.Range(1, 3)}}
+			if f.kind == "randu" || f.kind == "randn" {
+				st.B = f.trk
+			}
+			f.left -= st.I[0]
+			sc.Steps = append(sc.Steps, st)
+		}
+	}
 	for calls := 0; calls < 400; calls++ {
 		var live []*focus
 		for _, f := range fs {
